@@ -44,10 +44,18 @@ impl ColumnIndex {
         let checksum = footer.get_u64();
         verify_checksum(checksum_type, index_data, checksum)?;
 
-        let mut indexes = Vec::with_capacity(length);
+        let mut indexes = vec![];
         for _ in 0..length {
             let index = BlockIndex::decode_length_delimited(&mut index_data)?;
             indexes.push(index);
+        }
+        // The block count in the footer is not covered by the checksum: make sure that it
+        // accounts for all the (checksummed) index entries, otherwise blocks would be dropped
+        // silently.
+        if !index_data.is_empty() {
+            return Err(TracedStorageError::decode(
+                "failed to decode column index: block count mismatch",
+            ));
         }
 
         Ok(Self {
